@@ -5,7 +5,7 @@ CONSTANTS
   MaxE = 3
   StartVals = {0, 1, 3}
   Defaults = {0}
-  FamIdx = {1, 2, 3, 4, 6}
+  FamIdx = {1, 2, 4, 6}
   Bounds <- BoundsInf1
   FullUpTo = 2
   SampleT = 12
